@@ -33,6 +33,8 @@ class HexagonTransformerExtension(TransformerExtension):
         self.spec_ids = {"EffectiveAddress": "EA", "iterator_vars": ["i", "k", "j"]}
         self.transformer = transformer
         self.missing_fcns = dict()
+        # Per instance. The class level list above would be shared (and appended to) by all extensions.
+        self.preds_written = list()
 
     def report_missing_fcns(self):
         log("Missing functions:")
@@ -73,6 +75,7 @@ class HexagonTransformerExtension(TransformerExtension):
         self.writes_predicate = False
         self.uses_new = False
         self.branches = False
+        self.preds_written = list()
 
     def set_token_meta_data(self, token: str, **kwargs):
         if token == "mem_store":
